@@ -676,6 +676,16 @@ def rule_P6(ctx):
                                 "update_task_state no longer evaluates the task retry"))
         return res
     res.facts["retry_precondition"] = unparse(R.test)
+    active = status_set(ctx, "ACTIVE_STATUSES")
+    conj = fg.norm.conj(R.test, True)
+    if any(a[0] == "in" and a[2] == active and "status" in a[1] for a in conj):
+        res.holds(("precondition",), "retry only while the workflow status is active")
+    else:
+        res.violated(("precondition",), _f(
+            "P6", f, R, "retry precondition",
+            "the retry decision no longer requires the workflow status to be active: an attempt "
+            "that reports after the workflow failed / was canceled is re-staged instead of "
+            "completing"))
     # (i) ordering
     firsts = []
     for e in effects_of(ctx, UTS):
@@ -750,6 +760,19 @@ def rule_P6(ctx):
                                     "retry tally increment or re-stage with retry= vanished"))
     else:
         gt, gs = set(fg.atoms(tallies[0].node)), set(fg.atoms(restage[0]))
+        rkw = {k.arg: k.value for k in restage[0].keywords}.get("retry")
+        own = isinstance(rkw, ast.Subscript) and unparse(rkw).replace('"', "'").endswith("['retry']") \
+            and unparse(rkw.value) == unparse(tallies[0].node.target.value.value) if isinstance(
+                tallies[0].node, ast.AugAssign) and isinstance(tallies[0].node.target, ast.Subscript) \
+            and isinstance(tallies[0].node.target.value, ast.Subscript) else False
+        if not own:
+            res.violated(("restage-record",), _f(
+                "P6", f, restage[0], "retry record of the re-stage",
+                "the task is re-staged with %s, not with the execution record's own (evaluated) "
+                "retry entry: the offered retry delay / count are not the configured ones"
+                % (unparse(rkw) if rkw is not None else "?")))
+        else:
+            res.holds(("restage-record",))
         if gt == gs and any(a[0] == "==" and a[2] == "retrying" for a in gt):
             res.holds(("tally",))
         else:
@@ -826,6 +849,31 @@ def rule_P7(ctx):
                 "P7", f, r, "return SATISFIED",
                 "SATISFIED is not returned under 'count of satisfied inbound tasks >= "
                 "requirement' (%s)" % why))
+    # work-in-progress: an undecided inbound task keeps the join open while the workflow still
+    # has something in flight OR something staged ready (the same notion of "work left" the
+    # status machine uses)
+    wip = []
+    for r in rets:
+        try:
+            if prog.fold(r.value, f.module) == "inbound_criteria_wip":
+                wip.append(r)
+        except NotFoldable:
+            pass
+    for r in wip:
+        atoms = fg.atoms(r)
+        txt = " ".join(fmt_atoms(atoms))
+        inst = ("wip", norm_src(r), r.lineno)
+        if "has_active_tasks" in txt and "has_staged_tasks" in txt and "None in" in txt:
+            res.holds(inst)
+        else:
+            res.violated(inst, _f(
+                "P7", f, r, "return WIP",
+                "a join with an undecided inbound task is reported work-in-progress without "
+                "testing both 'tasks in flight' and 'tasks staged ready': it is declared "
+                "unreachable (or kept open) on partial evidence (guards: %s)" % fmt_atoms(atoms)))
+    if not wip:
+        res.violated(("wip",), _f("P7", f, f.node, "return WIP",
+                                  "get_inbound_criteria_status never reports work-in-progress"))
     # distinct inbound tasks on the same route
     dc = [n for n in ast.walk(f.node) if isinstance(n, ast.DictComp)]
     distinct = any("set(" in unparse(n.generators[0].iter) for n in dc)
@@ -854,6 +902,11 @@ def rule_P7(ctx):
         atoms = cg.atoms(c)
         inst = ("composer", norm_src(c))
         guarded = any(a[0] == "truthy" and "is_join_task" in a[1] for a in atoms)
+        extra = [a for a in atoms if not (a[0] == "truthy" and "is_join_task" in a[1])
+                 and not (a[0] == "falsy" and "empty()" in a[1])
+                 and not (a[0] in ("truthy", "isinstance") and ("wf_spec" in a[1] or "spec" in a[1]))]
+        if extra:
+            guarded = False
         val = {k.arg: k.value for k in c.keywords}.get("value") or (c.args[1] if len(c.args) > 1 else None)
         okv = False
         if isinstance(val, ast.Name):
@@ -871,4 +924,19 @@ def rule_P7(ctx):
     if not sb:
         res.violated(("composer",), _f("P7", comp, comp.node, "set_barrier",
                                        "the composer never sets a barrier"))
+    # the graph stores the barrier it is given
+    gsb = prog.find_function("graphing.WorkflowGraph.set_barrier")
+    if gsb is not None:
+        ok = False
+        for c in calls_in(gsb.node):
+            if callee_name(c) == "update_task":
+                kv = {k.arg: k.value for k in c.keywords}.get("barrier")
+                if isinstance(kv, ast.Name) and kv.id in gsb.params:
+                    ok = True
+        if ok:
+            res.holds(("graph", "set_barrier stores its argument"))
+        else:
+            res.violated(("graph", "set_barrier"), _f(
+                "P7", gsb, gsb.node, "set_barrier value",
+                "WorkflowGraph.set_barrier does not store the barrier value it is given unchanged"))
     return res
